@@ -38,7 +38,9 @@ DIAGNOSTICS = {
     'tifa': ['print(never_set_variable)', 'unused_thing = 5', 'total = total_missing + 1', 'later = 1\nlater = "s" + 2',
              # issue kinds that TIFA locates through the offending node rather than through the statement being visited
              'for ch in 5:\n    print(ch)', 'nothing = []\nfor each in nothing:\n    print(each)', 'number = 1\nnumber.append(4)\nprint(number)',
-             'again = [1, 2]\nfor again in again:\n    print(again)'],
+             'again = [1, 2]\nfor again in again:\n    print(again)',
+             # the analysis looks into another file of the submission (one that does not parse / one that does) and then goes on
+             'if 0:\n    import broken_helper\nprint(never_set_after_import)', 'if 0:\n    import good_helper\n    print(good_helper.helper_value)\nprint(never_set_after_good_import)'],
 }
 
 _chunk = st.fixed_dictionaries({
@@ -113,6 +115,7 @@ def reference_split(text, pattern):
     return spans, chunks      # chunks[0] = text before the first marker, chunks[j] = text after marker j
 
 
+HELPER_FILES = {'broken_helper.py': 'def (:\n    pass\n', 'good_helper.py': 'helper_value = 5\n'}      # further files of every submission
 OTHER_TEXTS = ['x = (1\ny = 2\n', 'a = 1\nb = 2\n  c = 3\n', 'fine = 1\nprint(fine)\n', 'one = 1\ntwo = 2\nthree = 3\ndef f(:\n    pass\n']
 
 
@@ -162,7 +165,8 @@ class Stepper:
                 self.setup = op
                 self.text, self.pattern = build_file(op)
                 self.marker_spans, self.chunks = reference_split(self.text, self.pattern)
-                contextualize_report(self.text)
+                from pedal.core.submission import Submission
+                contextualize_report(Submission(files=dict(HELPER_FILES, **{FILENAME: self.text}), main_file=FILENAME, main_code=self.text))
                 if op['pattern'] == 'default':
                     separate_into_sections(independent=op['independent'])
                 else:
@@ -468,7 +472,7 @@ def reference_tifa(positioned):
     from pedal.tifa.commands import tifa_analysis
     try:
         rep = Report()
-        rep.contextualize(Submission(files={FILENAME: positioned}, main_file=FILENAME))
+        rep.contextualize(Submission(files=dict(HELPER_FILES, **{FILENAME: positioned}), main_file=FILENAME))
         return issue_lines(tifa_analysis(report=rep))
     except Exception:
         return None
